@@ -105,12 +105,12 @@ def req_line(limit: int, length: int, cut: int) -> bool:
 # ---- 3. field count / size -----------------------------------------------------------------------------------------------
 def fields(nf: int, maxf: int, maxsz: int, l1: int, l2: int, l3: int) -> bool:
     """
-    pre: 1 <= nf <= 3 and 1 <= maxf <= 3 and 0 <= maxsz <= 9
+    pre: nf == CASE["nf"] and maxf == CASE["maxf"] and 0 <= maxsz <= 9
     pre: 0 <= l1 <= 5 and 0 <= l2 <= 5 and 0 <= l3 <= 5
     post: __return__
     """
-    nf, maxf, maxsz = pick(nf, 1, 3), pick(maxf, 1, 3), pick(maxsz, 0, 9)
-    ls = [pick(l1, 0, 5), pick(l2, 0, 5), pick(l3, 0, 5)][:nf]
+    nf, maxf, maxsz = CASE["nf"], CASE["maxf"], pick(maxsz, 0, 9)
+    ls = [pick(l, 0, 5) for l in (l1, l2, l3)[:nf]]
     lines = [b"a" + bytes([98 + i]) + b":" + b"x" * ls[i] for i in range(nf)]       # len = 3 + l
     r = mk_req()
     r.limit_request_fields = maxf
@@ -242,7 +242,7 @@ OBLIGATIONS = [
     Ob("C12.clamps.twin", "clamps_twin", expect="refute", timeout=120),
     Ob("C12.req_line", "req_line", cases={"quick": [{"maxlimit": 4, "maxlen": 6}], "thorough": [{"maxlimit": 6, "maxlen": 9}]},
        timeout=900, bound="limit 0..4 (thorough 6), request line length 0..6 (9), one cut at any position"),
-    Ob("C12.fields", "fields", timeout=1200,
+    Ob("C12.fields", "fields", cases=[{"nf": a, "maxf": b} for a in (1, 2, 3) for b in (1, 2, 3)], timeout=1200,
        bound="1..3 header fields of length 3..8, limit_request_fields 1..3, limit_request_field_size 0..9"),
     Ob("C12.buffer", "buffer_bound", cases=_BUF, timeout=600,
        bound="endless delimiter-free streams of up to 5-8 reads against read_line, the header-block scan, "
